@@ -14,7 +14,7 @@ ASSUMPTIONS = [
     'inputs are strings over the 43 characters 0-9 : ; < = > ? @ A-Z in compact presentation (no separators, upper case); presentation handling (separators, case, look-alikes) is the subject of C03/C14, not of this check',
     'the reference transcriptions are in spec/ref_validators.py; they read the same shipped tables (ISO 3166 lists of isin/isrc, iban.dat) with their own parser',
     'iso11649 treats the colon as a separator (documented presentation character): it is excluded from that module\'s input alphabet; IBAN is compared with check_country=False',
-    'Bitcoin addresses are NOT covered: Base58Check/Bech32 need SHA-256, which the engine cannot execute symbolically (see DESIGN.md)',
+    'Bitcoin: only native SegWit (Bech32, BIP-173) addresses, i.e. candidates starting with BC1; Base58Check addresses need SHA-256, which the engine cannot execute symbolically (see DESIGN.md). Bech32 path conditions mix integer characters with bit vectors: they are decided through the pure bit-vector translation of symx/bvroute.py',
     'IBAN: one unit per registered country (country code concrete, the rest symbolic) at the registered length and at length +-1; quick tier: a seed-rotated subset of countries',
 ]
 
@@ -37,6 +37,8 @@ SCOPE = {
     'stdnum.casrn': ('casrn', [7, 9], range(6, 14), None),
     'stdnum.bic': ('bic', [8, 11], range(7, 13), None),
     'stdnum.isrc': ('isrc', [12], range(11, 14), None),
+    # native SegWit (Bech32, BIP-173) addresses only: 'BC1' + symbolic data part; P2WPKH is 42, P2WSH 62 characters long
+    'stdnum.bitcoin': ('bitcoin_bech32', [42], [14, 41, 42, 43, 62], 'BC1'),
 }
 
 
@@ -86,4 +88,4 @@ def make_units(tier, only):
 
 
 def main(args):
-    return main_generic('C07', args, make_units, unit_fn, ASSUMPTIONS, bounds={'scope': {m: [v[0], list(v[1]), list(v[2])] for m, v in SCOPE.items()}, 'not_covered': ['stdnum.bitcoin']})
+    return main_generic('C07', args, make_units, unit_fn, ASSUMPTIONS, bounds={'scope': {m: [v[0], list(v[1]), list(v[2])] for m, v in SCOPE.items()}, 'not_covered': ['stdnum.bitcoin Base58Check (P2PKH/P2SH) addresses']})
